@@ -3,8 +3,10 @@
 import sys, os
 sys.path.insert(0, os.path.dirname(os.path.abspath(__file__)))
 import arrays_check
+import fpspecial
 arrays_check.run('C02', 'bulk',
                  'stream biased to ApplySlice/CopyFrom/Reshape/Unroll/Contiguous/Max/Min/arrayops over all source/destination contiguity combinations, plus the integer helpers against their arithmetic definitions',
-                 ['ApplySlice/CopyFrom/arrayops fast path = index loop is established by the correspondence + abstract-spec oracle only (C02_bulk_partial); it is false for partially overlapping views (known finding overlapping-copy)',
-                  'values are small integers, exact in all 8 element types; the model runs once with V = Z'],
+                 ['ApplySlice/CopyFrom/arrayops fast path = index loop is proved for non-overlapping views (C02_*_fast_eq_slow) and false for partially overlapping ones (known finding overlapping-copy)',
+                  'history values are small integers, exact in all 8 element types; the model runs once with V = Z; IEEE special values (NaN, infinities, signed zeros, subnormals) are covered by a separate stream judged by the element-by-element definition (tools/fpspecial.py), an instance of the V-generic theorems'],
+                 extra=fpspecial.fp_specials,
                  allowed=None, use_iops=True, oracle='spec')
